@@ -53,9 +53,11 @@ def convert(steps):
             out.append({"a": "Register", "who": sorted(PARTY[p] for p in s["who"])})
         elif a == "Sign":
             out.append({"a": "Sign", "entity": s["entity"][0], "who": PARTY[s["who"]], "label": PARTY[s["label"]],
-                        "variant": "ok"})
+                        "variant": s.get("variant", "ok")})
         elif a == "Expire":
             out.append({"a": "Expire", "entity": s["entity"][0]})
+        elif a == "Crash" and s.get("at") == "before_insert":
+            out.append({"a": "Crash", "at": "certifier.before_cert_insert"})
         elif a in ("Restart", "Crash"):
             out.append({"a": "Restart"})
         i += 1
